@@ -96,6 +96,15 @@ func buildRiffTokens(seed int64) *riffTokens {
 	if t.pay["alph"] == nil || t.pay["vp8a"] == nil || t.pay["vp8"] == nil {
 		vx.Fatal2("could not build container tokens")
 	}
+	// ALPH chunks whose plane is 255 everywhere: stored raw, and raw with the horizontal filter (255 then zeros)
+	ao := make([]byte, 1+t.w*t.h)
+	af := make([]byte, 1+t.w*t.h)
+	af[0] = 1 << 2
+	for i := 1; i < len(ao); i++ {
+		ao[i] = 255
+	}
+	af[1] = 255 // first sample; every other residual is 0 (left neighbour, and the sample above in column 0)
+	t.pay["alph-opaque"], t.pay["alph-opaque-f"] = ao, af
 	t.pay["anim"] = []byte{0x44, 0x33, 0x22, 0x11, 7, 0}
 	t.pay["f-vp8"] = anmfPayload(0, 0, t.w, t.h, 50, 0, chunkBytes("VP8 ", t.pay["vp8"]))
 	t.pay["f-vp8l"] = anmfPayload(0, 0, t.w, t.h, 70, 2, chunkBytes("VP8L", t.pay["vp8l"]))
